@@ -422,15 +422,15 @@ Proof.
   intros Ha Hb E. apply Rmult_integral in E. destruct E as [E|E]; apply sqrt_eq_0 in E; auto.
 Qed.
 
-(* estimate(seq) for complex data *)
+(* estimate(seq) for complex data, every sample with N >= 2 (since fix C12-estimate-complex-r0: a sample
+   covariance of exactly 0 gives two independent components and no correlation register is written) *)
+Definition is0 (x : R) : bool := if Req_EM_T x 0 then true else false.
 Theorem estimate_cplx_R l : (2 <= length l)%nat ->
   let re := res_ l in let im := ims_ l in let n := lenR l in
-  (ccov l <> 0 ->
-     estimate_cplx RNum l =
-     Ok (mkLeaf (meanR re) (sqrt (svar re) / sqrt n) (n - 1) false,
-         mkLeaf (meanR im) (sqrt (svar im) / sqrt n) (n - 1) false,
-         ccov l / (sqrt (svar re) * sqrt (svar im))))
-  /\ (ccov l = 0 -> estimate_cplx RNum l = Err AttributeError).
+  estimate_cplx RNum l =
+  Ok (mkLeaf (meanR re) (sqrt (svar re) / sqrt n) (n - 1) (is0 (ccov l)),
+      mkLeaf (meanR im) (sqrt (svar im) / sqrt n) (n - 1) (is0 (ccov l)),
+      if is0 (ccov l) then None else Some (ccov l / (sqrt (svar re) * sqrt (svar im)))).
 Proof.
   intros H re im n. cbn [T RNum] in *. pose proof (len_ge2 l H) as H2. pose proof (lenR_ge2 l H) as H3.
   assert (0 < n - 1) as Hd by (unfold n; lra).
@@ -461,23 +461,23 @@ Proof.
       { unfold Rdiv in E. apply Rmult_integral in E. destruct E as [E|E]; [assumption|].
         exfalso. apply Rinv_neq_0_compat in E; [assumption|lra]. }
       rewrite dot_comm, (dot_self_zero _ _ E0). unfold Rdiv. ring. }
-  split; intros Hc.
+  assert (eqb RNum 0 0 = true) as E00 by (apply R_eqb_true; reflexivity).
+  unfold is0. destruct (Req_EM_T (ccov l) 0) as [Hc|Hc].
+  - destruct (Req_EM_T (sqrt (svar re) * sqrt (svar im)) 0) as [E|E].
+    + cbn [bind fst snd]. unfold g_est_cplx_indep, g_est_cplx_rarg. rewrite dyad00, E00.
+      rewrite !elementary_R; cbn [T RNum] in *; try lia; try apply su_nonneg. cbn [bind negb].
+      rewrite IZR_pred. reflexivity.
+    + cbn [bind fst snd]. unfold g_est_cplx_indep, g_est_cplx_rarg. rewrite dyad00, Hc.
+      replace (0 / (sqrt (svar re) * sqrt (svar im))) with 0 by (unfold Rdiv; ring).
+      rewrite E00. rewrite !elementary_R; cbn [T RNum] in *; try lia; try apply su_nonneg. cbn [bind negb].
+      rewrite IZR_pred. reflexivity.
   - destruct (Req_EM_T (sqrt (svar re) * sqrt (svar im)) 0) as [E|E]; [exfalso; auto|].
-    cbn [bind fst snd]. unfold g_est_cplx_indep. rewrite dyad00.
+    cbn [bind fst snd]. unfold g_est_cplx_indep, g_est_cplx_rarg. rewrite dyad00.
     rewrite R_eqb_false.
     2:{ intros E0. unfold Rdiv in E0. apply Rmult_integral in E0. destruct E0 as [E0|E0]; [auto|].
         apply Rinv_neq_0_compat in E0; assumption. }
-    rewrite !elementary_R; cbn [T RNum] in *; try lia; try apply su_nonneg. cbn [bind].
+    rewrite !elementary_R; cbn [T RNum] in *; try lia; try apply su_nonneg. cbn [bind negb].
     rewrite IZR_pred. reflexivity.
-  - rewrite Hc.
-    assert (eqb RNum 0 0 = true) as E00 by (apply R_eqb_true; reflexivity).
-    destruct (Req_EM_T (sqrt (svar re) * sqrt (svar im)) 0) as [E|E].
-    + destruct (Req_EM_T 0 0) as [_|F]; [|contradiction]. cbn [bind fst snd].
-      unfold g_est_cplx_indep. rewrite dyad00, E00.
-      rewrite !elementary_R; cbn [T RNum] in *; try lia; try apply su_nonneg. reflexivity.
-    + cbn [bind fst snd]. unfold g_est_cplx_indep. rewrite dyad00.
-      replace (0 / (sqrt (svar re) * sqrt (svar im))) with 0 by (unfold Rdiv; ring).
-      rewrite E00. rewrite !elementary_R; cbn [T RNum] in *; try lia; try apply su_nonneg. reflexivity.
 Qed.
 
 (* the covariance of the mean carried by (u_re, u_im, r) *)
@@ -538,6 +538,13 @@ Qed.
 (* ================= multi_estimate_real ================= *)
 Lemma abs_le1 r : r * r <= 1 -> Rabs r <= 1.
 Proof. intros H. unfold Rabs. destruct (Rcase_abs r); nra. Qed.
+
+(* _clip_r leaves every |r| <= 1 alone *)
+Lemma g_clip_r_R r : Rabs r <= 1 -> g_clip_r RNum r = Ok r.
+Proof.
+  intros H. unfold g_clip_r.
+  rewrite (R_ltb_false (dyad RNum 1 0) (nabs RNum r)) by (cbn; lra). reflexivity.
+Qed.
 
 Section MultiSpec.
   Variable nn1 : R.                 (* N (N-1) as a real *)
@@ -617,8 +624,10 @@ Section MultiSpec.
 
   Lemma set_corr_R r : Rabs r <= 1 -> set_corr RNum false false r = Ok r.
   Proof.
-    intros H. unfold set_corr. cbn [orb]. rewrite R_ltb_false; [reflexivity|].
-    rewrite one_R. exact H.
+    intros H. unfold set_corr. cbn [orb].
+    assert (E : leb RNum (nabs RNum r) (one RNum) = true).
+    { rewrite one_R. cbn. unfold Rleb. destruct (Rle_dec (Rabs r) 1); [reflexivity|contradiction]. }
+    rewrite E. reflexivity.
   Qed.
 
   Lemma mer_corr_entry_R d e : length d = length e ->
@@ -630,7 +639,8 @@ Section MultiSpec.
     - rewrite R_eqb_false by assumption. cbn [negb].
       change (mul RNum) with Rmult.
       rewrite R_div_ok.
-      + cbn [bind]. rewrite set_corr_R by (apply r_le1; assumption). reflexivity.
+      + cbn [bind]. rewrite g_clip_r_R by (apply r_le1; assumption). cbn [bind].
+        rewrite set_corr_R by (apply r_le1; assumption). reflexivity.
       + intros Z. apply Rmult_integral in Z. destruct Z as [Z|Z].
         * apply E, uS_zero; assumption.
         * apply E. unfold cvS. rewrite dot_comm. apply (uS_zero e d). assumption.
@@ -1205,3 +1215,56 @@ Section MecEntry.
     - unfold uS. rewrite dot_ndevS. fold (uS (NN1 n) (devS s)). apply uS_svar; assumption.
   Qed.
 End MecEntry.
+
+(* ================= after the fixes ================= *)
+(* complex estimate, whole domain: the returned components always carry the 2x2 covariance of the mean *)
+Theorem estimate_cplx_full l : (2 <= length l)%nat ->
+  let re := res_ l in let im := ims_ l in let n := lenR l in
+  exists lre lim o,
+    estimate_cplx RNum l = Ok (lre, lim, o)
+    /\ lx lre = meanR re /\ lx lim = meanR im /\ ldf lre = n - 1 /\ ldf lim = n - 1
+    /\ lu lre * lu lre = svar re / n /\ lu lim * lu lim = svar im / n
+    /\ lu lre * lu lim * (match o with Some r => r | None => 0 end) = ccov l / n
+    /\ lind lre = lind lim /\ (lind lre = true <-> ccov l = 0) /\ (o = None <-> ccov l = 0).
+Proof.
+  intros H re im n. pose proof (lenR_ge2 l H) as H3. fold n in H3.
+  assert (length re = length l /\ length im = length l) as [Lr Li]
+    by (unfold re, im, res_, ims_; rewrite !map_length; auto).
+  assert (0 <= svar re) by (apply scov_self_nonneg; lia).
+  assert (0 <= svar im) by (apply scov_self_nonneg; lia).
+  eexists _, _, _. split; [apply estimate_cplx_R; assumption|]. cbn [lx lu ldf lind].
+  repeat (split; [reflexivity|]).
+  split; [apply var_from_u; lra|]. split; [apply var_from_u; lra|].
+  unfold is0. destruct (Req_EM_T (ccov l) 0) as [Hc|Hc].
+  - split; [rewrite Hc; unfold Rdiv; ring|]. split; [reflexivity|]. split; split; auto.
+  - split.
+    + destruct (estimate_cplx_cov l H Hc) as (C1 & _ & _). exact C1.
+    + split; [reflexivity|]. split; split; intros; try discriminate; contradiction.
+Qed.
+
+(* ---- the float model (FNum, any oracle table): _clip_r and the ValueError of set_correlation_real ---- *)
+From Coq Require Import PrimFloat.
+From GTCV Require Import FNum.
+
+(* the clipped value is r itself or exactly +-1 *)
+Lemma clip_float_cases tbl (r : float) :
+  exists c, g_clip_r (FNum tbl) r = Ok c /\ (c = r \/ c = 1%float \/ c = (-1)%float).
+Proof.
+  unfold g_clip_r.
+  match goal with |- context [if ?b then _ else _] => destruct b end.
+  - eexists. split; [reflexivity|].
+    match goal with |- context [if ?b then _ else _] => destruct b end; [right; left|right; right]; reflexivity.
+  - eexists. split; [reflexivity|]. left. reflexivity.
+Qed.
+
+(* after _clip_r, set_correlation_real can raise ValueError only for a value _clip_r left unchanged,
+   i.e. one that is further from [-1,1] than the rounding band: |r| = 1 + ulp no longer raises *)
+Theorem clip_float_no_rounding_error tbl (r : float) :
+  exists c, g_clip_r (FNum tbl) r = Ok c /\
+            (set_corr (FNum tbl) false false c = Err ValueError -> c = r).
+Proof.
+  destruct (clip_float_cases tbl r) as (c & E & [->|[->| ->]]); eexists; (split; [exact E|]).
+  - reflexivity.
+  - intros Hs. vm_compute in Hs. discriminate.
+  - intros Hs. vm_compute in Hs. discriminate.
+Qed.
